@@ -71,7 +71,8 @@ def gen_config(rng, profile):
         "site_strategy": rng.choice(["event", "site", "site", "dirty", "dirty"]),
         "fs": "real" if rng.random() < 0.08 else "sim",
         "file_size": rng.choice(["small", "small", "medium", "full"]) if profile == "C18" else "small",
-        "focus": rng.choice([None, None, "electrostatic_potential", "import", "eval", "integral", "update"]),
+        "focus": rng.choice([None, None, "electrostatic_potential", "import", "eval", "integral", "update", "screen"]),
+        "p_reissue": rng.choice([0.0, 0.4, 0.8]),
     }
     return cfg
 
@@ -93,7 +94,7 @@ def _weights(cfg):
     if f == "import":
         for k in ("write_file", "parse", "make_contr", "from_pyscf", "from_iodata"):
             w[k] *= 3
-    elif f == "update":
+    elif f in ("update", "screen"):
         w["update"] *= 3
     return w
 
@@ -115,9 +116,22 @@ def gen_history(seed, profile):
     w = _weights(cfg)
     names = list(w)
     weights = [w[k] for k in names]
+    if cfg.get("focus") == "screen":
+        cfg["coord_scale"] = rng.choice([1.0, 2.0, 3.0])
     while len(ops) < cfg["n_ops"]:
         kind = rng.choices(names, weights)[0]
         ops.append(GEN[kind](rng, cfg))
+        # "the same question again after the world changed": re-issue an earlier query right after a
+        # parameter update / file overwrite (what exposes caches keyed by identity or path)
+        if kind in ("update", "write_file") and rng.random() < cfg["p_reissue"]:
+            earlier = [o for o in ops[:-1] if o["op"] in ("query", "parse", "make_contr", "from_pyscf", "from_iodata")
+                       and not o.get("keep")]
+            if earlier:
+                q = dict(earlier[-1 - rng.randrange(min(3, len(earlier)))])
+                if rng.random() < 0.7:
+                    q["fault"] = None
+                    q["env"] = None
+                ops.append(q)
     return cfg, ops[:30]
 
 
@@ -187,7 +201,7 @@ def g_new_shell(rng, cfg):
         "coord": coord,
         "share": share,
         "ctype": rng.choice(["cartesian", "spherical", "spherical", "c", "p"]),
-        "cls": rng.choice(["base", "base", "base", "conv", "pyscf", "unnorm"]),
+        "cls": rng.choice(["base", "base", "base", "conv", "pyscf", "unnorm", "cartperm", "sphperm"]),
         "icenter": rng.choice([None, None, 0, 1, 2]),
     }
 
@@ -382,6 +396,8 @@ def g_update(rng, cfg):
         "angmom": rng.randint(0, cfg["max_l"]),
         "ctype": rng.choice(["cartesian", "spherical", "c", "p"]),
         "icenter": rng.choice([None, 0, 3]),
+        "env": g_env(rng, cfg),
+        "fault": g_fault(rng, cfg),
     }
 
 
@@ -401,6 +417,8 @@ def g_query(rng, cfg, fn=None):
         elif f == "integral":
             weights = [w * (4 if n.endswith("integral") or n.endswith("asymmetric") else 1)
                        for n, w in zip(names, weights)]
+        elif f == "screen":
+            weights = [w * (12 if n == "overlap_integral" else 1) for n, w in zip(names, weights)]
         fn = rng.choices(names, weights)[0]
     tr = None
     if rng.random() < cfg["p_transform"]:
@@ -417,7 +435,8 @@ def g_query(rng, cfg, fn=None):
         "beta": rng.choice([0, 0, 0.25, 1]),
         "threshold": rng.choice([1.0e-8, 1.0e-8, 0.0, 1.0, 1.0e6]),
         "threshold_dist": rng.choice([0.0, 0.0, 0.0, 0.1, 1.5, 0]),
-        "tol_screen": rng.choice([None, None, 1e-8, 1e-4, 0.5]),
+        "tol_screen": rng.choice([None, None, 1e-8, 1e-4, 0.5, math.exp(rng.uniform(math.log(1e-12), math.log(0.9))),
+                                  math.exp(rng.uniform(math.log(1e-3), math.log(0.9)))]),
         "symmetric": rng.random() < 0.5,
         "charges": rng.choice(["random", "random", "ghost", "ints"]),
         "dm": rng.choice(["psd", "psd", "indef", "zero"]),
@@ -489,7 +508,13 @@ def gen_sweep(seed, profile):
     cfg["mode"] = "sweep"
     targets = sweep_targets(profile)
     target = targets[seed % len(targets)]
-    chunk = (seed // len(targets)) % 40
+    idx = seed // len(targets)
+    if idx % 4 == 3:  # every fourth sweep enumerates the catalogue of deliberately invalid arguments instead
+        sweep_kind = "invalid"
+        chunk = (idx // 4) % 4
+    else:
+        sweep_kind = "line"
+        chunk = (idx // 4 * 3 + idx % 4) % 40
     ops = []
     if target in IMPORT_QUERIES or rng.random() < 0.3:
         ops.append(g_write_file(rng, cfg, new=True))
@@ -522,8 +547,14 @@ def gen_sweep(seed, profile):
     q["env"] = g_env(rng, dict(cfg, p_fault=0.25)) if rng.random() < 0.3 else None
     for t in range(SWEEP_CHUNK):
         qq = dict(q)
-        qq["fault"] = {"kind": "line", "strategy": "sweep", "d": chunk * SWEEP_CHUNK + t}
+        n = chunk * SWEEP_CHUNK + t
+        if sweep_kind == "line":
+            qq["fault"] = {"kind": "line", "strategy": "sweep", "d": n}
+        else:
+            qq["fault"] = None
+            qq["invalid"] = {"arg": n, "kind": n // 6}
         ops.append(qq)
+    cfg["sweep_kind"] = sweep_kind
     cfg["sweep_target"] = target
     cfg["sweep_chunk"] = chunk
     return cfg, ops[:30]
